@@ -153,6 +153,16 @@ class FsScenario(Scenario):
             obs.start()
             for op in case["ops"]:
                 run.exec_op(op)
+            if case.get("early_stop"):
+                # stop() while events are still in flight: only thread/exception/descriptor verdicts apply
+                run.phase = "teardown"
+                obs.stop()
+                obs.join()
+                res["alive_lib"] = [t.name for t in sim.tasks if t.kind == "lib" and t.state != DONE]
+                res["open_fds"] = run.kshim.open_fds()
+                res["fd_misuse"] = list(run.kshim.violations)
+                res["early"] = True
+                return
             run.exec_op(["drain"])
             res["n_ops"] = run.opi + 1
             res["ever_paths"] = sorted(run.ever)
@@ -359,6 +369,11 @@ class C07(FsScenario):
             kept, m = fm.revalidate(case["pre"], case["ops"], paced=True)
             case["ops"].append(["drain"])
             case["ops"].append(["rmroot"])
+        elif rng.random() < 0.2:
+            case["early_stop"] = True
+            case["sched"]["line"] = True
+            if case["sched"]["policy"] != "pct":
+                case["sched"]["p_line"] = 0.05
 
     def after_ops(self, run, res, sim):
         import os
@@ -381,6 +396,10 @@ class C07(FsScenario):
 
     def judge(self, run, res, sim, verdict):
         v = generic_violations("C07", sim, verdict, res)
+        if res.get("early"):
+            if res["alive_lib"]:
+                v.append(Violation("thread-alive", "C07:threads-alive-after-stop-join:" + ",".join(sorted({n.split('#')[0] for n in res["alive_lib"]})), f"{res['alive_lib']}"))
+            return v
         if not res.get("done"):
             return v
         pr = res.get("probes")
